@@ -42,7 +42,7 @@ fn guard_case(name: &'static str, reserved: bool) {
 macro_rules! guard_harness {
     ($name:ident, [$(($k:expr, $s:expr, $res:expr)),+]) => {
         #[kani::proof]
-        #[kani::unwind(12)]
+        #[kani::unwind(16)]
         #[kani::stub(alloc::fmt::format, crate::verif_common::fmt_stub)]
         #[kani::stub(crate::expressions::evaluate_ast, probe_eval)]
         fn $name() {
@@ -79,7 +79,7 @@ fn rebind_case(outer: bool) {
 }
 
 #[kani::proof]
-#[kani::unwind(12)]
+#[kani::unwind(16)]
 #[kani::stub(alloc::fmt::format, crate::verif_common::fmt_stub)]
 #[kani::stub(crate::expressions::evaluate_ast, probe_eval)]
 fn u_assign_guard_rebind() {
@@ -98,7 +98,7 @@ fn failing_eval(
 }
 
 #[kani::proof]
-#[kani::unwind(12)]
+#[kani::unwind(16)]
 #[kani::stub(alloc::fmt::format, crate::verif_common::fmt_stub)]
 #[kani::stub(crate::expressions::evaluate_ast, failing_eval)]
 fn u_assign_guard_failing_rhs() {
